@@ -617,15 +617,14 @@ example : (legalRunD exS0 (.release "v2" :: (List.replicate 9 exRound).flatten +
 def supersedeHist : List Label :=
   .release "v2" :: (List.replicate 12 exRound).flatten ++ [.release "v3", .br, .env, .br, .env, .br, .env, .br, .env]
 
-/-- **known finding `supersedeRace` — witness.**  Rollout of `v2` on step 1 (20 %, batch ready, 2 of 10 pods updated); the
-    user pushes `v3` (held back by the webhook at partition 100 %); the BatchRelease controller reconciles four times and
-    the CloneSet controller reacts before the Rollout controller reconciles once: the partition is back at 80 % and 2 pods
-    run `v3`, a revision the Rollout (still on `v2`, step 1) has not taken up.  The same history is replayed on the real
-    controllers on every run (corpus `closedloop/finding-supersedeRace`). -/
-theorem loop_supervised_full_FALSE :
+/-- regression test of the repaired defect `supersedeRace` (fix: the executor no longer records a superseding revision and
+    keeps stopping): rollout of `v2` on step 1, the user pushes `v3`, the BatchRelease controller reconciles four times and
+    the CloneSet controller reacts before the Rollout controller reconciles once — the workload stays held at partition
+    100 %, no pod runs `v3`.  (Before the fix: partition 80 %, 2 pods on `v3`.) -/
+example :
     (run exS0 supersedeHist).map (fun s =>
-        gSupersedeRace s && !supervisedOK s &&
-        (match s.wl with | some w => w.updateRevision == "v3" && w.updated == 2 && w.partition == some (.pct 80) | none => false) &&
+        supervisedOK s &&
+        (match s.wl with | some w => w.updateRevision == "v3" && w.updated == 0 && w.partition == some (.pct 100) | none => false) &&
         (match s.ro.sub with | some sub => sub.canaryRev == "v2" && sub.curIdx == 1 | none => false)) = some true := by
   decide +kernel
 
